@@ -267,6 +267,29 @@ impl World {
         None
     }
 
+    /// Another KeyPair object for the same RSA key, configured with a *different signature hash*:
+    /// the public key is the same, so wherever the key is only the subject of a certificate
+    /// (it signs nothing there) the result may not change.
+    pub fn second_key_object_other_hash(&self, slot: usize) -> Option<rcgen::KeyPair> {
+        let k = self.keys.get(slot)?;
+        let other = match k.sim.alg {
+            Alg::RsaSha256 => Alg::RsaSha384,
+            Alg::RsaSha384 => Alg::RsaSha512,
+            Alg::RsaSha512 => Alg::RsaSha256,
+            _ => return None,
+        };
+        let sim2 = k.sim.with_alg(other);
+        if k.is_remote() {
+            return Some(remote_key_pair(slot, Arc::new(sim2), self.bus.clone(), None));
+        }
+        #[cfg(feature = "crypto")]
+        {
+            return crate::keys::load_local(&sim2, Loader::Pkcs8DerAlgo).ok();
+        }
+        #[allow(unreachable_code)]
+        None
+    }
+
     /// `Issue` with the subject given as another KeyPair object for the same key.
     pub fn exec_issue_with_subject(&self, op: &Op, subject_kp: &rcgen::KeyPair) -> Option<OpResult> {
         let Op::Issue { issuer, subject, recipe, .. } = op else { return None };
